@@ -206,6 +206,7 @@ func checkC14(c *Ctx) {
 	c.ruleDistributeErrors("C14-R3")
 	c.ruleSubscriptionPeer("C14-R6")
 	c.ruleNoTransparentRetry("C14-R7")
+	c.ruleWorkerServesEveryRequest("C14-R8", "")
 
 	// R4 provenance
 	ru4 := c.R.Rule("C14-R4", "the remote side appends exactly the message it received (request.Message) to its own log", "E3", 1)
